@@ -200,3 +200,101 @@ func alignTargets(thorough bool) []int {
 	}
 	return ts
 }
+
+// fieldFiles: well-formed files of each container with one length field replaced by an extreme or
+// off-by-one value (what a damaged or hostile file carries): every PNG chunk length, every JPEG
+// segment length, the RIFF size and every WebP chunk size.  Quick takes a PRNG-chosen subset of the
+// values per field; thorough takes all of them.
+func fieldFiles(r *rng, thorough bool) []seedFile {
+	var out []seedFile
+	base := seedFiles(r, true)
+	// a PNG with ancillary chunks before and after its profile
+	pd := randPngDesc(r, true, randProfilePayload(r, 60))
+	pd.pre = []pngChunk{{"gAMA", be32(45455)}, {"tEXt", []byte("Comment\x00pv")}}
+	pd.post = []pngChunk{{"pHYs", []byte{0, 0, 11, 19, 0, 0, 11, 19, 1}}}
+	pdata, pneeded := pd.build()
+	base = append(base, seedFile{"png-ancillary", "png", pdata, pneeded})
+	pick := func(vals []uint32) []uint32 {
+		if thorough {
+			return vals
+		}
+		return []uint32{vals[r.intn(len(vals))], vals[r.intn(len(vals))]}
+	}
+	for _, s := range base {
+		d := s.data
+		switch s.format {
+		case "png":
+			ci := 0
+			for off := 8; off+8 <= len(d); ci++ {
+				n := uint32(d[off])<<24 | uint32(d[off+1])<<16 | uint32(d[off+2])<<8 | uint32(d[off+3])
+				vals := pick([]uint32{0xfffffffe, 0xfffffffd, 0xfffffffc, 0xfffffffb, 0xfffffff4, 0x80000000, 0x7fffffff, 0, n + 1, n - 1, n + 4, n + 12})
+				vals = append(vals, 0xffffffff) // the largest value the field can hold, always
+				for _, v := range vals {
+					m := append([]byte{}, d...)
+					copy(m[off:], be32(v))
+					out = append(out, seedFile{fmt.Sprintf("%s/len-field/chunk%d-%s=%08x", s.name, ci, string(d[off+4:off+8]), v), s.format, m, 0})
+				}
+				off += 12 + int(n)
+			}
+		case "jpeg":
+			si := 0
+			for off := 2; off+4 <= len(d) && d[off] == 0xff; si++ {
+				mk := d[off+1]
+				if mk == 0xd9 || mk == 0xda {
+					break
+				}
+				n := uint32(d[off+2])<<8 | uint32(d[off+3])
+				for _, v := range pick([]uint32{0, 1, 2, 3, 0xffff, 0xfffe, n + 1, n - 1, n + 2}) {
+					m := append([]byte{}, d...)
+					copy(m[off+2:], be16(uint16(v)))
+					out = append(out, seedFile{fmt.Sprintf("%s/len-field/seg%d-%02x=%04x", s.name, si, mk, v&0xffff), s.format, m, 0})
+				}
+				off += 2 + int(n)
+			}
+		case "webp":
+			ci := 0
+			for _, off := range []int{4} {
+				n := uint32(d[off]) | uint32(d[off+1])<<8 | uint32(d[off+2])<<16 | uint32(d[off+3])<<24
+				for _, v := range pick([]uint32{0xffffffff, 0xfffffffe, 0xfffffff7, 0x80000000, 0, 4, n + 1, n - 1}) {
+					m := append([]byte{}, d...)
+					copy(m[off:], le32(v))
+					out = append(out, seedFile{fmt.Sprintf("%s/len-field/riff=%08x", s.name, v), s.format, m, 0})
+				}
+			}
+			for off := 12; off+8 <= len(d); ci++ {
+				n := uint32(d[off+4]) | uint32(d[off+5])<<8 | uint32(d[off+6])<<16 | uint32(d[off+7])<<24
+				for _, v := range pick([]uint32{0xffffffff, 0xfffffffe, 0xfffffff8, 0xfffffff7, 0x80000000, 0x7fffffff, 0, n + 1, n - 1, n + 2}) {
+					m := append([]byte{}, d...)
+					copy(m[off+4:], le32(v))
+					out = append(out, seedFile{fmt.Sprintf("%s/len-field/chunk%d-%s=%08x", s.name, ci, string(d[off:off+4]), v), s.format, m, 0})
+				}
+				off += 8 + int(n) + int(n&1)
+			}
+		}
+	}
+	// lengths that wrap: a parser that adds the framing (4, 8 or 12 bytes; 1 byte of padding) to a declared
+	// length in 32 bits sees a small number.  The declared length is 2^32 - c + k and exactly k bytes are
+	// present before the next well-formed chunk, so a wrapped sum lands on a chunk boundary again.
+	for _, c := range []uint32{4, 8, 12} {
+		for _, k := range []uint32{0, 1, 3, 5} {
+			v := uint32(0) - c + k
+			var b []byte
+			b = append(b, pdata[:33]...) // signature + IHDR
+			b = append(b, be32(v)...)
+			b = append(b, []byte("tEXt")...)
+			b = append(b, make([]byte, k)...)
+			b = append(b, pdata[33:]...)
+			out = append(out, seedFile{fmt.Sprintf("png-ancillary/len-wrap/c%d-k%d", c, k), "png", b, 0})
+		}
+	}
+	for _, c := range []uint32{1, 8, 9, 12} {
+		for _, k := range []uint32{0, 1, 2, 6} {
+			v := uint32(0) - c + k
+			wd := randWebpDesc(r, "VP8X", nil)
+			wd.between = append(append(append([]byte("EXIF"), le32(v)...), make([]byte, k)...), riffChunk("XMP ", []byte("ab"))...)
+			d, _ := wd.build()
+			out = append(out, seedFile{fmt.Sprintf("webp-VP8X/len-wrap/c%d-k%d", c, k), "webp", d, 0})
+		}
+	}
+	return out
+}
